@@ -666,6 +666,7 @@ size_t derTBITDec(octet* val, size_t* len, const octet der[], size_t count,
 {
 	const octet* v;
 	size_t l;
+	octet pad;
 	// декодировать
 	count = derDec2(&v, &l, der, count, tag);
 	if (count == SIZE_MAX)
@@ -675,6 +676,8 @@ size_t derTBITDec(octet* val, size_t* len, const octet der[], size_t count,
 	// биты дополнения в несуществующем октете?
 	if (l < 1 || v[0] > 7 || v[0] != 0 && l == 1) 
 		return SIZE_MAX;
+	// сохранить число битов дополнения (val может пересекаться с der)
+	pad = v[0];
 	// возвратить строку
 	if (val)
 	{
@@ -686,7 +689,7 @@ size_t derTBITDec(octet* val, size_t* len, const octet der[], size_t count,
 	if (len)
 	{
 		ASSERT(memIsValid(len, O_PER_S));
-		*len = (l - 1) * 8 - v[0];
+		*len = (l - 1) * 8 - pad;
 	}
 	return count;
 }
